@@ -25,6 +25,8 @@ CONSTANTS Keys,        \* set of key tokens (strings)
           MaxCrash,    \* bound on Die steps
           MaxLevel     \* deepest level used by the compactor
 
+\* the key tokens in ascending byte order (TLC cannot compare strings; tokens are named k1..k6 by convention)
+KeySeq == SelectSeq(<<"k1", "k2", "k3", "k4", "k5", "k6">>, LAMBDA k : k \in Keys)
 Tomb == "TOMB"          \* deletion marker / "never written" in abstract maps
 None == "NONE"          \* what a read reports for a deleted or absent key
 NoEnt == [v |-> "NOENT", s |-> 0]
@@ -219,7 +221,16 @@ FEnd ==
 
 AtLevel(l) == {f \in Files : dir[f].lvl = l}
 KeysOf(f) == {k \in Keys : dir[f].run[k] # NoEnt}
-Overlap(f, g) == KeysOf(f) \cap KeysOf(g) # {}
+Idx(k) == CHOOSE i \in 1..Len(KeySeq) : KeySeq[i] = k
+FirstIdx(f) == Min({Idx(k) : k \in KeysOf(f)})
+LastIdx(f) == Max({Idx(k) : k \in KeysOf(f)})
+\* the compactor reasons about key RANGES [first key, last key] of files, not about key sets
+Overlap(f, g) == FirstIdx(f) <= LastIdx(g) /\ FirstIdx(g) <= LastIdx(f)
+InRange(f, lo, hi) == FirstIdx(f) <= hi /\ LastIdx(f) >= lo
+\* everything that overlaps a selected file has to go with it (range compaction puts its output below every level)
+RECURSIVE Closure(_)
+Closure(S) == LET more == {g \in Files \ S : \E f \in S : Overlap(f, g)}
+              IN IF more = {} THEN S ELSE Closure(S \cup more)
 
 \* merge of the chosen inputs, newest first, into ONE output file at `lvl`; a deletion marker is kept
 \* while any file outside the inputs at the same or a deeper level still holds the key
@@ -252,6 +263,11 @@ Compact ==
           /\ LET f == SortIds(AtLevel(l))[1]
                  nxt == {g \in AtLevel(l + 1) : Overlap(f, g)}
              IN CompactTo({f} \cup nxt, l + 1)
+     \* CompactRange(lo, hi): every file whose range meets [lo, hi], closed under overlap, into a new deepest level
+     \/ \E lo \in 1..Len(KeySeq) : \E hi \in lo..Len(KeySeq) :
+          LET sel == Closure({f \in Files : InRange(f, lo, hi)})
+          IN /\ sel # {}
+             /\ CompactTo(sel, 1 + Max({dir[f].lvl : f \in Files}))
   /\ UNCHANGED <<logs, live, next, act, imms, ret, ssts, lastSeq, up, wpc, fpc, fq, fact, fn, retired, issued, hist, crashes>>
 
 -----------------------------------------------------------------------------
